@@ -54,9 +54,12 @@ type c12run struct {
 	nTLV       int
 	degenerate bool // an out-of-range group element was put on the wire (v2 known-finding class)
 	knownSig   string
-	blind      bool
-	knownMsg   string
-	hits       int
+	// nonMult: an out-of-range element that is not a multiple of p went over the wire (1, p-1, p+1, ...): under
+	// version 2 that is the open finding; multiples of p (0, p, 2p, ...) are refused since f8f81ec and are judged
+	nonMult  bool
+	blind    bool
+	knownMsg string
+	hits     int
 }
 
 func (r *c12run) paramLen() int {
@@ -122,7 +125,7 @@ func (r *c12run) judgeEvents(ev []sim.SMPEv, allowSuccess bool, what string) {
 		for _, e := range ev {
 			if e.Ev == otr3.SMPEventAskForSecret || e.Ev == otr3.SMPEventAskForAnswer || e.Ev == otr3.SMPEventInProgress {
 				sig := "C12/accepted-invalid"
-				if r.sc.Cfg.V == 2 && r.degenerate {
+				if r.sc.Cfg.V == 2 && r.degenerate && r.nonMult {
 					sig = "C12/v2-no-group-check"
 				}
 				if sim.KnownOpen(sig) {
@@ -139,7 +142,7 @@ func (r *c12run) judgeEvents(ev []sim.SMPEv, allowSuccess bool, what string) {
 	succ, _, _, _, _ := smpFlags(ev)
 	if succ && !allowSuccess {
 		sig := "C12/false-success"
-		if r.sc.Cfg.V == 2 && r.degenerate {
+		if r.sc.Cfg.V == 2 && r.degenerate && r.nonMult {
 			sig = "C12/v2-no-group-check"
 		}
 		if sim.KnownOpen(sig) {
@@ -204,7 +207,7 @@ func (r *c12run) deviate(st DStep, m []*big.Int, groupIdx map[int]bool) ([]*big.
 		}
 		out[i] = new(big.Int).Sub(ref.P, big.NewInt(1))
 		out[i+1], out[i+2] = ref.ResealLog(ver, r.refRnd)
-		r.degenerate = true
+		r.degenerate, r.nonMult = true, true
 		return out, true
 	}
 	if st.V == 11 && (len(m) == 6 || len(m) == 11) {
@@ -216,10 +219,7 @@ func (r *c12run) deviate(st DStep, m []*big.Int, groupIdx map[int]bool) ([]*big.
 		if len(m) == 11 {
 			ver += 2
 		}
-		out[i] = big.NewInt(0)
-		if st.F%4 >= 2 {
-			out[i] = new(big.Int).Set(ref.P)
-		}
+		out[i] = new(big.Int).Mul(ref.P, big.NewInt(int64([]int{0, 0, 1, 1, 2, 2, 3, 3}[st.F%8])))
 		out[i+1], out[i+2] = ref.ResealZero(ver)
 		r.degenerate = true
 		return out, true
@@ -235,6 +235,9 @@ func (r *c12run) deviate(st DStep, m []*big.Int, groupIdx map[int]bool) ([]*big.
 	out[i] = nv
 	if groupIdx[i] && !ref.InGroup(nv) {
 		r.degenerate = true
+		if new(big.Int).Mod(nv, ref.P).Sign() != 0 {
+			r.nonMult = true
+		}
 	}
 	return out, true
 }
@@ -277,6 +280,9 @@ func (r *c12run) sendSMP(typ uint16, q string, m []*big.Int, x int) (structural 
 		}
 	case 6: // empty value
 		t.Val = nil
+		structural = true
+	case 7: // a well-formed block of no elements at all (behind the question, if there is one)
+		t = ref.SMPTLV(typ, []byte(q))
 		structural = true
 	}
 	r.m.fromR(r.m.R.SendOpts(nil, ref.DataOpts{Flags: 1, TLVs: []ref.TLV{t}}))
@@ -414,7 +420,7 @@ func runC12(sc *C12Script) *sim.Outcome {
 				r.settle()
 				if err == nil && r.lastV[ref.TLVSMP2] != nil {
 					sig := "C12/answered-without-request"
-					if r.sc.Cfg.V == 2 && r.degenerate {
+					if r.sc.Cfg.V == 2 && r.degenerate && r.nonMult {
 						sig = "C12/v2-no-group-check"
 					}
 					if sim.KnownOpen(sig) {
@@ -444,10 +450,13 @@ func runC12(sc *C12Script) *sim.Outcome {
 			switch st.X % 16 { // honest-but-degenerate provers
 			case 9:
 				r.prover.ForceA2, r.degenerate = zero, true
+				r.nonMult = true
 			case 10:
 				r.prover.ForceA3, r.degenerate = zero, true
+				r.nonMult = true
 			case 11:
 				r.prover.ForceA2, r.degenerate = qq, true
+				r.nonMult = true
 			}
 			r.pRole = 1
 			msg, dev := r.deviate(st, r.prover.Step1(), map[int]bool{0: true, 3: true})
@@ -488,8 +497,10 @@ func runC12(sc *C12Script) *sim.Outcome {
 			switch st.X % 16 {
 			case 9:
 				r.prover.ForceB2, r.degenerate = zero, true
+				r.nonMult = true
 			case 10:
 				r.prover.ForceB3, r.degenerate = zero, true
+				r.nonMult = true
 			}
 			hon, err := r.prover.Step2(m1)
 			if err != nil {
@@ -505,7 +516,7 @@ func runC12(sc *C12Script) *sim.Outcome {
 					qb = new(big.Int).Set(ref.P)
 				}
 				msg = r.prover.Reseal2(hon, qb, d5, d6)
-				r.degenerate, dev = true, true
+				r.degenerate, r.nonMult, dev = true, true, true
 			}
 			structural := r.sendSMP(ref.TLVSMP2, "", msg, st.X)
 			r.settle()
@@ -691,6 +702,7 @@ func sameInts(a, b []*big.Int) bool {
 func init() {
 	reg("C12deviant", runC12)
 	reg("C12fields", runC12)
+	reg("C12structure", runC12)
 	reg("C12degenerate", runC12)
 	reg("C12usercalls", runC12)
 }
@@ -700,7 +712,7 @@ func genDStep(rt *rapid.T, kinds []string) DStep {
 	if strings.HasPrefix(st.K, "r") && st.K != "rabort" {
 		switch rapid.IntRange(1, 6).Draw(rt, "devkind") {
 		case 6:
-			st.V, st.F = rapid.SampledFrom([]int{10, 11}).Draw(rt, "reseal"), rapid.IntRange(0, 3).Draw(rt, "which")
+			st.V, st.F = rapid.SampledFrom([]int{10, 11}).Draw(rt, "reseal"), rapid.IntRange(0, 7).Draw(rt, "which")
 		case 1, 2, 3:
 			st.F = rapid.IntRange(0, 10).Draw(rt, "field")
 			st.V = rapid.IntRange(1, 9).Draw(rt, "val")
@@ -787,6 +799,46 @@ func TestProp_C12_Fields(t *testing.T) {
 	sim.MarkCompleted("C12fields", sim.Thorough())
 }
 
+// TestProp_C12_Structure: every structural deviation (element count one too many, one too few, huge, zero; value cut
+// short; question without terminator; empty record) in every message slot, the first message with and without a
+// question, both versions; afterwards a fresh run with equal secrets must succeed.
+func TestProp_C12_Structure(t *testing.T) {
+	si, sn := sim.Shard()
+	idx := 0
+	type slot struct {
+		pre  []DStep
+		k    string
+		q    bool
+		post []DStep
+	}
+	slots := []slot{
+		{nil, "r1", false, nil},
+		{nil, "r1", true, nil},
+		{[]DStep{{K: "r1"}, {K: "vanswer"}}, "r3", false, nil},
+		{[]DStep{{K: "r1", Q: true}, {K: "vanswer"}}, "r3", false, nil},
+		{[]DStep{{K: "vstart"}}, "r2", false, nil},
+		{[]DStep{{K: "vstart"}, {K: "r2"}}, "r4", false, nil},
+		{[]DStep{{K: "vstart"}}, "r1", true, nil}, // a request with a question while the victim waits for an answer to its own
+	}
+	for _, v := range []int{3, 2} {
+		for _, sl := range slots {
+			for x := 1; x <= 7; x++ {
+				if x == 5 && !sl.q {
+					continue
+				}
+				idx++
+				if idx%sn != si {
+					continue
+				}
+				sc := &C12Script{Cfg: SessCfg{V: v, SeedA: 44, SeedB: 55, KeyA: 0, KeyB: 3}, Equal: true}
+				sc.Steps = append(append(append([]DStep{}, sl.pre...), DStep{K: sl.k, X: x, Q: sl.q}), sl.post...)
+				sim.Judge(t, "C12structure", sc)
+			}
+		}
+	}
+	sim.MarkCompleted("C12structure", true)
+}
+
 var _ = otr3.SMPEventSuccess
 
 // degenerateScripts: honest-but-degenerate provers (a chosen exponent forced to 0 or q,
@@ -800,7 +852,7 @@ func degenerateScripts() []*C12Script {
 				out = append(out, &C12Script{Cfg: SessCfg{V: v, SeedA: 60, SeedB: 71, KeyA: 1, KeyB: 4}, Equal: eq,
 					Steps: []DStep{{K: "r1", X: x}, {K: "vanswer"}, {K: "r3"}}})
 			}
-			for f := 0; f < 4; f++ {
+			for f := 0; f < 8; f++ { // 0, p, 2p, 3p in place of g2x and of g3x
 				out = append(out, &C12Script{Cfg: SessCfg{V: v, SeedA: 64, SeedB: 75, KeyA: 1, KeyB: 4}, Equal: eq,
 					Steps: []DStep{{K: "r1", V: 11, F: f}, {K: "vanswer"}, {K: "r3z"}}})
 				out = append(out, &C12Script{Cfg: SessCfg{V: v, SeedA: 66, SeedB: 77, KeyA: 1, KeyB: 4}, Equal: eq,
